@@ -76,3 +76,13 @@ package dns
 //@   opt no-safety
 //@   requires srv != nil
 //@   assert at "return nil, nil, err" onlyerr: err != nil
+
+// the out-of-band data of a datagram (the local address the reply must leave from) belongs to its session alone: it is
+// allocated per read and never handed to a pool, so a handler's later writes leave from its own request's address
+//@ func ReadFromSessionUDP [C12]
+//@   opt no-safety
+//@   exit ownoob: !called("Get") && !called("Put")
+//@   exit freshoob: ret2 == nil ==> ret1 != nil && fresh(ret1.context)
+//@ func WriteToSessionUDP [C12]
+//@   opt no-safety
+//@   exit keepoob: !called("Put")
